@@ -132,6 +132,9 @@ pub fn random_history(t: &mut Tracer, rng: &mut StdRng, note: &str) -> String {
     let body_due = matches!(rq.method.as_str(), "POST" | "PUT" | "PATCH") || rq.despite;
     let early = if rq.expect && body_due && rng.gen_bool(0.7) {
         Some(EarlyMsg::new(["100", "refuseBare", "refuseFields", "refuseFieldsClose"][rng.gen_range(0..4)], rng.gen_range(0..8)))
+    } else if rng.gen_bool(0.15) {
+        // an unsolicited interim 100 (no handshake in progress)
+        Some(EarlyMsg::new("100", rng.gen_range(0..8)))
     } else {
         None
     };
